@@ -14,6 +14,10 @@ _count = [0]
 TWIN = [None]   # 'reach': vacuity twin, the contract is negated so that a path reaching `return True` is a counterexample
 
 
+class Inconclusive(Exception):
+    """raised by a harness that cannot judge (e.g. the state representation it presets no longer matches the code): never a violation"""
+
+
 def fail(**kw):
     """record what was observed / expected and return False (the harness verdict)"""
     DETAIL.clear()
